@@ -24,6 +24,7 @@ RULE = ("One evaluation = one seeded execution of 2-3 real clients driven by "
         "one client reached a key. Distinct: event-log digests among "
         "non-trivial runs; the evidence also counts the distinct (machine, "
         "state, input) transitions reached via the machines' own trace hooks.")
+RULE += (' The words of an interactive code entry may be entered after the wormhole closed or failed under the prompt.')
 LEVEL_TEXT = ("Seeded exploration of the composed client (13 mailbox machines "
               "+ Dilator) for reachable-but-undeclared (state, input) pairs. "
               "Gating configuration generates only calls whose legality the "
